@@ -62,13 +62,28 @@ spec_mutant("Kanal FIX=FALSE async: D5/D6 stale waker (LatestWoken)", "MC_Kanal"
 # ---- L2 mutants
 spec_mutant("Kanal: admission test <= instead of < (CapOK)", "MC_Kanal", "MC_Kanal_sync.cfg", "Kanal.tla",
             "IF Len(C.queue) < Cap THEN\n        IF async", "IF Len(C.queue) <= Cap THEN\n        IF async", r"Invariant (CapOK|WaitShape) is violated")
-spec_mutant("Kanal: unpark before the final store (lost wake-up, NoStuck)", "MC_Kanal", "MC_Kanal_sync.cfg", "Kanal.tla",
-            '  /\\ LSet(p, [pc |-> "k_store"]) /\\ UNCHANGED <<C, S, token, woken, now, G>>',
-            '  /\\ LSet(p, [pc |-> "k_store"]) /\\ token\' = [token EXCEPT ![L[p].tgt] = TRUE] /\\ UNCHANGED <<C, S, woken, now, G>>',
-            r"is violated|Assert")
+def multi_mutant(name, module, cfg, fname, edits, pattern):
+    fresh_spec()
+    p = os.path.join(SP, fname)
+    s = open(p).read()
+    for old, new in edits:
+        assert old in s, (name, old[:40])
+        s = s.replace(old, new, 1)
+    open(p, "w").write(s)
+    expect(name, tlc(module, cfg), pattern)
+
+
+multi_mutant("Kanal: unpark before the final store (lost wake-up, NoStuck)", "MC_Kanal", "MC_Kanal_sync.cfg", "Kanal.tla",
+             [('  /\\ LSet(p, [pc |-> "k_store"]) /\\ UNCHANGED <<C, S, token, woken, now, G>>',
+               '  /\\ LSet(p, [pc |-> "k_unpark"]) /\\ UNCHANGED <<C, S, token, woken, now, G>>'),
+              ('  /\\ SSet(L[p].tgt, [st |-> L[p].fin]) /\\ LSet(p, [pc |-> "k_unpark"])\n  /\\ UNCHANGED <<C, token, woken, now, G>>',
+               '  /\\ SSet(L[p].tgt, [st |-> L[p].fin]) /\\ ApplyTail(p, <<>>)\n  /\\ UNCHANGED <<token, woken, now>>'),
+              ('  /\\ L[p].pc = "k_unpark" /\\ token\' = [token EXCEPT ![L[p].tgt] = TRUE]\n  /\\ ApplyTail(p, <<>>) /\\ UNCHANGED <<S, woken, now>>',
+               '  /\\ L[p].pc = "k_unpark" /\\ token\' = [token EXCEPT ![L[p].tgt] = TRUE]\n  /\\ LSet(p, [pc |-> "k_store"]) /\\ UNCHANGED <<C, G, S, woken, now>>')],
+             r"Invariant NoStuck is violated|is violated")
 spec_mutant("Kanal: blocked sender pushed to the front (PerProducerFifo)", "MC_Kanal", "MC_Kanal_sync.cfg", "Kanal.tla",
             "[c |-> c0 @@ [wl |-> Append(C.wl, p)], s |-> SyncReg(p, L[p].msg),", "[c |-> c0 @@ [wl |-> <<p>> \\o C.wl], s |-> SyncReg(p, L[p].msg),",
-            r"Invariant PerProducerFifo is violated")
+            r"Invariant (PerProducerFifo|Fifo|FifoNow) is violated")
 spec_mutant("Kanal: timeout cancel does not remove the entry (NothingLeftBehind)", "MC_Kanal", "MC_Kanal_timed.cfg", "Kanal.tla",
             "     [c |-> [wl |-> Remove(C.wl, p)], s |-> <<>>,\n      l |-> IF L[p].ctx", "     [c |-> <<>>, s |-> <<>>,\n      l |-> IF L[p].ctx",
             r"returned while still listed|is violated")
